@@ -14,7 +14,7 @@ composition model are theorems about what the code says now.
 -/
 namespace Failsafe.Lemmas.ExecBodiesLink
 open Failsafe Failsafe.Classify Failsafe.Exec
-open Failsafe.ExecBodies (XSt RCfg RSt CCfg CSt FSt LoopOps)
+open Failsafe.ExecBodies (XSt RCfg RSt CCfg CSt FSt LoopOps AdmitOps LimitOps)
 
 /-! ## cancellation state -/
 
@@ -227,5 +227,68 @@ theorem fallback_link (fuel pos : Nat) (k : FbKind) (h : List Cond) (inner : Lay
       simp [Run.emitSeen, Run.emit]
   · simp only [hf, ↓reduceIte, Bool.false_eq_true, PR.withDone]
     exact ⟨_, rfl, by simp⟩
+
+/-! ## circuit breaker and rate limiter layers -/
+
+/-- the breaker executor's operations as the composition model defines them (breaker instance `id` with configuration `c`, at
+position `pos`; `h`: its handle conditions) -/
+def breakerOps (id pos : Nat) (c : Breaker.Cfg) : AdmitOps Run :=
+  { tryV := fun r => match r.w.breakers[id]? with | some (c, b) => (Breaker.tryAcquire c b r.w.now).2 | none => false,
+    tryS := fun r => match r.w.breakers[id]? with
+      | some (c, b) => drainBreaker (updBreaker r id (fun _ _ => (Breaker.tryAcquire c b r.w.now).1)) id pos
+      | none => r,
+    baseOnSuccess := fun r x => r.emitSeen "cb.onSuccess" pos (r.seenBy x.outcome),
+    baseOnFailure := fun r x => r.emitSeen "cb.onFailure" pos (r.seenBy x.outcome),
+    recordSuccess := fun r => drainBreaker (updBreaker r id (fun c b => Breaker.record c b r.w.now true false)) id pos,
+    recordFailure := fun r _ => drainBreaker (updBreaker r id (fun c b => Breaker.record c b r.w.now false true)) id pos }
+
+/-- **the model's circuit breaker layer is the breaker executor around `BaseExecutor.PostExecute`**: admission (`PreExecute`) before
+anything inside runs; then `PostExecute` with the executor's `OnFailure` / `OnSuccess` — listener first, record second -/
+theorem breaker_link (fuel pos id : Nat) (h : List Cond) (inner : Layer) (r : Run) (c : Breaker.Cfg) (b : Breaker.B)
+    (hb : r.w.breakers[id]? = some (c, b)) :
+    applyPolicy fuel pos (.breaker id h) inner r =
+      (let ops := breakerOps id pos c
+       match ExecBodies.breakerPre ops r with
+       | (some rej, r1) => some (rej, r1)
+       | (none, r1) =>
+         match inner r1 with
+         | none => none
+         | some (res, r2) =>
+           some (ExecBodies.postExecute (fun er => isFailure h er.outcome) (fun s er => ExecBodies.breakerOnFailure ops s er)
+                   (fun s er => ExecBodies.breakerOnSuccess ops s er) r2 res)) := by
+  simp only [applyPolicy, hb, ExecBodies.breakerPre, breakerOps, ExecBodies.postExecute, ExecBodies.breakerOnFailure,
+    ExecBodies.breakerOnSuccess]
+  cases hok : (Breaker.tryAcquire c b r.w.now).2
+  · simp
+  · simp only [Bool.not_true, Bool.false_eq_true, if_false, if_true]
+    cases inner (drainBreaker (updBreaker r id fun _ _ => (Breaker.tryAcquire c b r.w.now).1) id pos) with
+    | none => rfl
+    | some x =>
+      obtain ⟨res, r2⟩ := x
+      have ho1 : res.withFailure.outcome = res.outcome := rfl
+      have ho2 : (res.withDone true true).outcome = res.outcome := rfl
+      by_cases hf : isFailure h res.outcome = true <;> simp [hf, ho1, ho2]
+
+/-- the limiter executor's operations in the model (max wait 0: a permit is granted at once or refused) -/
+def limiterOps (id pos : Nat) (inner : Layer) (res : PR) (r2 : Run) : LimitOps Run :=
+  { acquireV := fun r => match r.w.limiters[id]? with
+      | some (c, s) => if (limAcquire c s r.w.now).1 then none else some Err.rate
+      | none => some Err.rate,
+    acquireS := fun r => match r.w.limiters[id]? with
+      | some (c, s) => { r with w := { r.w with limiters := r.w.limiters.set id (c, (limAcquire c s r.w.now).2) } }
+      | none => r,
+    onExceeded := fun r => r.emit "rl.onRateLimitExceeded" pos,
+    innerV := fun _ => res, innerS := fun _ => r2 }
+
+/-- **the model's rate limiter layer is the limiter executor's `Apply`** -/
+theorem limiter_link (fuel pos id : Nat) (inner : Layer) (r : Run) (c : LimCfg) (s : LimSt) (hl : r.w.limiters[id]? = some (c, s))
+    (res : PR) (r2 : Run)
+    (hi : (limAcquire c s r.w.now).1 = true →
+      inner { r with w := { r.w with limiters := r.w.limiters.set id (c, (limAcquire c s r.w.now).2) } } = some (res, r2)) :
+    applyPolicy fuel pos (.limiter id) inner r = some (ExecBodies.limiterApply (limiterOps id pos inner res r2) r) := by
+  simp only [applyPolicy, hl, ExecBodies.limiterApply, limiterOps]
+  cases hok : (limAcquire c s r.w.now).1
+  · simp [Err.rate, Err.is]
+  · simp [hi hok]
 
 end Failsafe.Lemmas.ExecBodiesLink
